@@ -137,6 +137,11 @@ def convex3d(draw, max_n=30, kinds=("ellipsoid", "lattice", "prismatoid", "tabul
         regular = draw(st.booleans()) or sub == "antiprism"
         return {"kind": kind, "sub": sub, "n": n, "regular": regular, "noise": draw(noise(2 * n + 4)),
                 "logh": draw(f(-1.3, 1.3)), "top": draw(f(0.3, 0.9)), "box": [draw(f(-1, 1)) for _ in range(3)]}
+    if kind == "roofed":
+        # a box with a very shallow pyramid on its top face: neighbouring facets that are nearly - but, at 2e-6..1e-2
+        # of the size, unmistakably not - coplanar (dihedral angles a hair below pi)
+        return {"kind": kind, "box": [draw(f(-0.5, 0.5)) for _ in range(3)], "logh": draw(f(-5.7, -2.0)),
+                "at": [draw(f(0.2, 0.8)), draw(f(0.2, 0.8))], "both": draw(st.booleans())}
     names = sorted(tabulated_raw())
     return {"kind": "tabulated", "name": draw(st.sampled_from(names))}
 
@@ -171,6 +176,15 @@ def build_convex(case):
         ax = 10.0 ** np.asarray(case["axes"], dtype=float)
         V = P * ax
         return {"verts": V, "lattice": False, "aspect": float(ax.max() / ax.min())}
+    if k == "roofed":
+        a, b, h = (10.0 ** np.asarray(case["box"], dtype=float)).tolist()
+        V = [[x, y, z] for x in (0.0, a) for y in (0.0, b) for z in (0.0, h)]
+        size = math.sqrt(a * a + b * b + h * h)
+        rise = 10.0 ** case["logh"] * size
+        V.append([case["at"][0] * a, case["at"][1] * b, h + rise])
+        if case["both"]:
+            V.append([case["at"][1] * a, case["at"][0] * b, -rise])
+        return {"verts": np.array(V, dtype=float), "lattice": False, "aspect": float(max(a, b, h) / min(a, b, h)), "rise": rise / size}
     if k == "lattice":
         pts = sorted(set(tuple(p) for p in case["pts"]))
         ok = False
